@@ -43,8 +43,8 @@ func (e *engine) Info() core.Info {
 	return core.Info{
 		Prop:  "C18",
 		Level: "exploration",
-		Rule:  "a case is one seeded execution of ExtractXML: an OSM document of <=41 elements (0-12 nodes on a quarter-integer grid, 0-8 ways sharing nodes incl. closed ways and dangling refs, 0-5 relations with node/way/relation members incl. forward references, cycles and self-reference; tags from a 3x2 alphabet; canonical or shuffled element order), a keep function (KeepTags with several maps, KeepBounds with a box straddling the grid, KeepAll), keepTags on/off, 1-8 workers, a scheduling strategy (round-robin, uniform, sticky, PCT priorities, long worker stalls, starve-one) deciding every interleaving at every lock/channel/spawn/join point, and a reader/fault class (full reads; legal short and (0,nil) reads; I/O error at byte k of pass p; failing Seek; cancellation at scheduler step k); non-trivial = >=2 workers AND the model keeps at least one way or relation; distinct = distinct hash of (document, keep, schedule, faults) = the full event log",
-		Real:  []string{"osm.ExtractXML / extract (pass loop, worker pool, channel, all mutex-guarded maps, processNode/Way/Relation, hasNeed*)", "KeepTags / KeepBounds / KeepAll", "(*Data).Check, (*Data).Filter", "paulmach/osm osmxml.Scanner and encoding/xml", "golang.org/x/sync/errgroup", "real goroutines, real sync.RWMutex/Mutex and channel (only the choice of who runs is simulated)"},
+		Rule:  "a case is one seeded execution of ExtractXML: an OSM document of <=41 elements (0-12 nodes on a quarter-integer grid, 0-8 ways sharing nodes incl. closed ways and dangling refs, 0-5 relations with node/way/relation members incl. forward references, cycles and self-reference; tags from a 3x2 alphabet; canonical or shuffled element order), a keep function (KeepTags with several maps, KeepBounds with a box straddling the grid, KeepAll), keepTags on/off, 1-8 workers, a scheduling strategy (round-robin, uniform, sticky, PCT priorities, long worker stalls, starve-one) deciding every interleaving at every lock/channel/spawn/join point, and XML or (1 in 25) PBF encoding, a reader/fault class (full reads; legal short and (0,nil) reads; I/O error at byte k of pass p; failing Seek; cancellation at scheduler step k); non-trivial = >=2 workers AND the model keeps at least one way or relation; distinct = distinct hash of (document, keep, schedule, faults) = the full event log",
+		Real:  []string{"osm.ExtractXML / extract (pass loop, worker pool, channel, all mutex-guarded maps, processNode/Way/Relation, hasNeed*)", "osm.ExtractPBF over the same documents written by an independent PBF writer (one run in 25; paulmach/osm osmpbf decoder incl. its own, unsimulated, decoder goroutines)", "KeepTags / KeepBounds / KeepAll", "(*Data).Check, (*Data).Filter", "paulmach/osm osmxml.Scanner and encoding/xml", "golang.org/x/sync/errgroup", "real goroutines, real sync.RWMutex/Mutex and channel (only the choice of who runs is simulated)"},
 		Stubs: []string{"the io.ReadSeeker (simulated file: chunking, (0,nil) reads, injected read error, failing Seek, pass counting)", "the context (cancelled by the scheduler at a tape-chosen step)", "the worker count (tape-chosen 1-8 instead of GOMAXPROCS)", "the Go scheduler's choice of which goroutine runs next (token passing at the verif hooks)"},
 		FaultKinds: []string{
 			"reader-short-reads (legal)", "reader-zero-read (legal (0,nil), injected singly)", "reader-io-error at byte k of pass p", "seek-failure at pass p", "cancellation at scheduler step k", "worker-stall (a ready worker frozen for tens to thousands of steps)", "worker-starved",
@@ -54,7 +54,7 @@ func (e *engine) Info() core.Info {
 		TimeStatement: "no clock or timer exists in extract; simulated time = scheduler steps (one per intercepted lock acquisition, channel operation, spawn, join)",
 		Assumptions: []string{
 			"every shared access of extract is lock-protected, so yielding before every lock acquisition and channel operation explores every distinguishable interleaving class; a change that REMOVES a lock is a data race this scheduler cannot see",
-			"osmxml.Scanner and encoding/xml are synchronous (no goroutines of their own); ExtractPBF's decoder goroutines are not simulated and PBF input is not part of this check",
+			"osmxml.Scanner and encoding/xml are synchronous (no goroutines of their own); osmpbf's decoder goroutines are NOT simulated: they never touch a hook, their output order is deterministic and the main task waits for them while holding the token, so PBF runs replay exactly as long as no read error or cancellation is injected — PBF runs therefore use only the fault-free and legal-reader classes",
 			"Filter's own map iteration order is not behind a seam (the hooks are add-only); for correct code its result is order-independent; it is evaluated 4 times per run (64 times in a replay)",
 			"under an injected fault the only accepted outcomes are (nil, error) or (data equal to the model, nil)",
 		},
@@ -238,21 +238,23 @@ func (f *simFile) Seek(off int64, whence int) (int64, error) {
 // ---------- the run ----------
 
 type run struct {
-	t        *tape.Tape
-	log      *core.Log
-	res      *core.Result
-	d        *doc
-	ks       keepSpec
-	keepTags bool
-	nprocs   int
-	strategy string
-	class    int
-	trace    bool
+	qlat, qlon map[int64]int // node id -> quarter-degree index
+	pbf        bool
+	t          *tape.Tape
+	log        *core.Log
+	res        *core.Result
+	d          *doc
+	ks         keepSpec
+	keepTags   bool
+	nprocs     int
+	strategy   string
+	class      int
+	trace      bool
 }
 
 func (e *engine) Run(t *tape.Tape, trace bool) core.Result {
 	res := core.Result{}
-	r := &run{t: t, log: core.NewLog(trace), res: &res, trace: trace}
+	r := &run{t: t, log: core.NewLog(trace), res: &res, trace: trace, qlat: map[int64]int{}, qlon: map[int64]int{}}
 	r.exec()
 	res.LogHash = r.log.Hash()
 	res.Events = r.log.Count()
@@ -295,7 +297,9 @@ func (r *run) genDoc() {
 	nR := t.Choose(6, "n-rels")
 	chain := t.OneIn(6, "chain-shape") // long dependency chains need many passes
 	for i := 0; i < nN; i++ {
-		d.nodes = append(d.nodes, mNode{id: int64(i + 1), lat: float64(t.Choose(17, "lat")) / 4, lon: float64(t.Choose(17, "lon")) / 4, tags: r.genTags()})
+		qa, qo := t.Choose(17, "lat"), t.Choose(17, "lon")
+		r.qlat[int64(i+1)], r.qlon[int64(i+1)] = qa, qo
+		d.nodes = append(d.nodes, mNode{id: int64(i + 1), lat: float64(qa) / 4, lon: float64(qo) / 4, tags: r.genTags()})
 	}
 	pickNode := func() int64 {
 		if nN == 0 || t.OneIn(25, "dangling-node") {
@@ -435,8 +439,28 @@ func (r *run) exec() {
 	}
 	r.class = t.Choose(8, "fault-class") // 0-2 none, 3 legal reader variations, 4 zero read, 5 eio, 6 seek, 7 cancel
 	withBounds := t.Bool("bounds-elem")
-	xmlDoc := r.d.xml(withBounds)
-	r.log.Eventf("doc %d elements, %s keepTags=%v workers=%d strategy=%s class=%d", len(r.d.order), r.ks, r.keepTags, r.nprocs, r.strategy, r.class)
+	// one run in 25 reads the document as PBF through ExtractPBF: the pass
+	// loop and worker pool are the same; osmpbf's own decoder goroutines are
+	// not simulated (their output order is deterministic, the main task simply
+	// waits for them while holding the token), so only fault-free and legal
+	// reader classes are used — an injected error or cancellation would
+	// surface at a moment those goroutines decide
+	r.pbf = t.OneIn(25, "pbf-input")
+	var xmlDoc []byte
+	if r.pbf {
+		if r.class >= 5 {
+			r.class = r.class % 5
+		}
+		for i := range r.d.nodes {
+			n := &r.d.nodes[i]
+			n.lat, n.lon = pbfCoord(r.qlat[n.id]), pbfCoord(r.qlon[n.id])
+		}
+		xmlDoc = r.d.pbf(r.qlat, r.qlon, 1+t.Choose(3, "pbf-blocks"))
+		r.res.Probe("pbf-input")
+	} else {
+		xmlDoc = r.d.xml(withBounds)
+	}
+	r.log.Eventf("doc %d elements, %s keepTags=%v workers=%d strategy=%s class=%d pbf=%v", len(r.d.order), r.ks, r.keepTags, r.nprocs, r.strategy, r.class, r.pbf)
 	if r.trace {
 		for _, l := range r.d.describe() {
 			r.log.Note("    %s", l)
@@ -495,7 +519,11 @@ func (r *run) exec() {
 				panic(e)
 			}
 		}()
-		data, err = gosm.ExtractXML(ctx, f, r.keepFunc(), r.keepTags)
+		if r.pbf {
+			data, err = gosm.ExtractPBF(ctx, f, r.keepFunc(), r.keepTags)
+		} else {
+			data, err = gosm.ExtractXML(ctx, f, r.keepFunc(), r.keepTags)
+		}
 	})
 	if !p && aborted == nil {
 		s.Drain()
